@@ -8,22 +8,28 @@
 (*                    exactly m*j eighths.                                    *)
 EXTENDS Integers, Sequences, FiniteSets
 
+\* @type: (Int, Str, Int) => Int;
 Offset8(t8, tt, tol) == IF tt = "th" THEN tol ELSE (t8 \div 8000) * tol
 
 (* indices are 0-based, as the implementation reports them *)
+\* @type: (Int, Seq(Int), Str, Int) => Set(Int);
 Window(t8, obs8, tt, tol) ==
-    { j \in 0..(Len(obs8) - 1) : /\ obs8[j + 1] >= t8 - Offset8(t8, tt, tol)
-                                 /\ obs8[j + 1] <= t8 + Offset8(t8, tt, tol) }
+    { k - 1 : k \in { j \in DOMAIN obs8 : /\ obs8[j] >= t8 - Offset8(t8, tt, tol)
+                                          /\ obs8[j] <= t8 + Offset8(t8, tt, tol) } }
 
+\* @type: (Int, Int) => Int;
 AbsDiff(a, b) == IF a >= b THEN a - b ELSE b - a
 
+\* @type: (Int, Seq(Int), Str, Int) => Set(Int);
 Closest(t8, obs8, tt, tol) ==
     LET W == Window(t8, obs8, tt, tol) IN
     { j \in W : \A q \in W : AbsDiff(obs8[j + 1], t8) <= AbsDiff(obs8[q + 1], t8) }
 
+\* @type: (Int, Seq(Int), Seq(Int), Str, Int) => Set(Int);
 Largest(t8, obs8, inten, tt, tol) ==
     LET W == Window(t8, obs8, tt, tol) IN
     { j \in W : \A q \in W : inten[j + 1] >= inten[q + 1] }
 
-Sorted(s) == \A i \in 1..(Len(s) - 1) : s[i] <= s[i + 1]
+\* @type: (Seq(Int)) => Bool;
+Sorted(s) == \A i \in DOMAIN s : (i + 1) \in DOMAIN s => s[i] <= s[i + 1]
 ==============================================================================
